@@ -203,11 +203,13 @@ def gen_layer(key):
             let i: usize = kani::any();
             kani::assume(i < out.len() && i < N);
             let j: usize = kani::any();
-            kani::assume(j < {nf} && j != k);
+            // j ranges over every field; the frame claim is stated for j != k (a layer may have a single field,
+            // so `j != k` must not be assumed: that would leave no execution at all)
+            kani::assume(j < {nf});
             if res.is_ok() {{
                 // stored value is v reduced to the field width; v itself when in range
                 assert!(after[k] == ((v as u64) & ((1u64 << w) - 1)));
-                assert!(after[j] == before[j]);
+                assert!(j == k || after[j] == before[j]);
                 let r2 = {ty}::from_bytes(Rc::new(out), 0);
                 match &r2 {{
                     Ok(t2) => {{
@@ -219,7 +221,7 @@ def gen_layer(key):
                 std::mem::forget(r2);
             }} else {{
                 assert!(!in_range);
-                assert!(after[k] == before[k] && after[j] == before[j]);
+                assert!(after[k] == before[k] && after[j] == before[j]); // j == k included
                 std::mem::forget(out);
             }}
             kani::cover!(in_range && res.is_ok());
